@@ -58,36 +58,28 @@ def PFun.needs {K} (bound : List String) (p : PFun K) : List String :=
   p.args.filter (fun a => !bound.contains a)
 
 /-- the variables `containsAux · D pts ρ` reads from `ρ` when the point binds the variables `bound`:
-    parameters see `pts ++ ρ`; below a translation / rotation the operand sees only the moved
-    coordinates of `v` (the code builds `Points(shifted, self.space)`) -/
+    parameters see `pts ++ ρ`; below a translation / rotation the operand sees the moved coordinates of `v`,
+    then the point's other coordinates, then the row (`Points(shifted, self.space)` and
+    `params' = other coordinates ⋈ params`, /repo 414d4d6) — so it still reads from the row only what the
+    point does not bind -/
 def Dom.needs {K} : List String → Dom K → List String
   | bd, .interval _ lb ub => lb.needs bd ++ ub.needs bd
   | bd, .par _ o c1 c2 | bd, .tri _ o c1 c2 => o.needs bd ++ c1.needs bd ++ c2.needs bd
   | bd, .circle _ c r | bd, .sphere _ c r => r.needs bd ++ c.needs bd
   | bd, .union a b | bd, .cut a b | bd, .inter a b | bd, .prod a b => a.needs bd ++ b.needs bd
-  | bd, .translate v d t => t.needs bd ++ d.needs [v]
-  | bd, .rotate v d m c => m.needs bd ++ c.needs bd ++ d.needs [v]
+  | bd, .translate v d t => t.needs bd ++ (d.needs [v]).filter (fun x => !bd.contains x)
+  | bd, .rotate v d m c => m.needs bd ++ c.needs bd ++ (d.needs [v]).filter (fun x => !bd.contains x)
   | bd, .bdry d | bd, .bdryL d | bd, .bdryR d => d.needs bd
-
-/-- the variables read from the parameter row *below* motion nodes (they cannot be supplied by a
-    product partner: the partner's coordinates are not handed down through a translation / rotation) -/
-def Dom.innerNeeds {K} : Dom K → List String
-  | .interval .. | .par .. | .tri .. | .circle .. | .sphere .. => []
-  | .union a b | .cut a b | .inter a b | .prod a b => a.innerNeeds ++ b.innerNeeds
-  | .translate v d _ | .rotate v d _ _ => d.needs [v]
-  | .bdry d | .bdryL d | .bdryR d => d.innerNeeds
 
 /-- what the constructors check (`set_necessary_variables` asserts that no parameter depends on a
     variable of the node's own space; Boolean operands share a space; `_check_variable_dependencies`:
-    the second factor of a product does not depend on the first), plus: a factor that depends on its
-    partner does so outside of motion nodes -/
+    the second factor of a product does not depend on the first) -/
 def Dom.wf {K} : Dom K → Bool
   | .interval v lb ub => !lb.args.contains v && !ub.args.contains v
   | .par v o c1 c2 | .tri v o c1 c2 => !o.args.contains v && !c1.args.contains v && !c2.args.contains v
   | .circle v c r | .sphere v c r => !c.args.contains v && !r.args.contains v
   | .union a b | .cut a b | .inter a b => a.wf && b.wf && a.vars == b.vars
-  | .prod a b => a.wf && b.wf && b.freeVars.all (fun x => !a.vars.contains x) &&
-      a.innerNeeds.all (fun x => !b.vars.contains x)
+  | .prod a b => a.wf && b.wf && b.freeVars.all (fun x => !a.vars.contains x)
   | .translate v d t => d.wf && d.vars == [v] && !t.args.contains v
   | .rotate v d m c => d.wf && d.vars == [v] && !m.args.contains v && !c.args.contains v
   | .bdry d | .bdryL d | .bdryR d => d.wf
